@@ -455,9 +455,9 @@ func c08Replay(raw json.RawMessage) (string, bool, error) {
 
 func init() {
 	fw.Register(&fw.Prop{
-		ID:    "C08",
-		Level: "model_checking",
-		Rule:  "(STATE) breadth-first search over event histories on one connection of a server with requirepass=Secret1; events = AUTH with each candidate of a dictionary built around the password (empty, null bulk, every strict prefix, password+suffix, +NUL, case-swapped, embedded CRLF, leading space), two-argument forms with wrong/empty users, missing and surplus arguments, forms the statement leaves open (no expectation on the reply), and probes (GET/SET via the handler, PING/ECHO/CONFIG, SELECT, an application executor); canonical state = (IsAuthrized, UserName, Password, Database) read from the live connection object through Server.Conns() at every step plus the model's 'unlocked'; depth 4 (thorough 6) or closure. (SCHED) two connections (thorough three) each running one of 6 scripts through the real accept loop, every schedule within deviation bound 2; a handler call or non-error reply for a client that has not itself presented the password is a violation.",
+		ID:          "C08",
+		Level:       "model_checking",
+		Rule:        "(STATE) breadth-first search over event histories on one connection of a server with requirepass=Secret1; events = AUTH with each candidate of a dictionary built around the password (empty, null bulk, every strict prefix, password+suffix, +NUL, case-swapped, embedded CRLF, leading space), two-argument forms with wrong/empty users, missing and surplus arguments, forms the statement leaves open (no expectation on the reply), and probes (GET/SET via the handler, PING/ECHO/CONFIG, SELECT, an application executor); canonical state = (IsAuthrized, UserName, Password, Database) read from the live connection object through Server.Conns() at every step plus the model's 'unlocked'; depth 4 (thorough 6) or closure. (SCHED) two connections (thorough three) each running one of 6 scripts through the real accept loop, every schedule within deviation bound 2; a handler call or non-error reply for a client that has not itself presented the password is a violation.",
 		Assumptions: []string{"AUTH '' P, AUTH default P and three-argument AUTH carry no expectation on the reply, only the gate invariant afterwards"},
 		Run:         c08Run,
 		Replay:      c08Replay,
